@@ -55,6 +55,8 @@ Inductive action :=
 | GetConn (a : addr) (dial_ok : bool) (now : Z)  (* getConn(addr); the dial, if any, succeeds? *)
 | CallBegin (c : cid)                 (* a call / stream registers on the connection *)
 | CallEnd (c : cid) (shutdown : bool) (* it ends; ErrShutdown => checkPersistConnErr *)
+| StreamEnd (c : cid)                 (* a stream registered on the connection is closed by its owner: one occupant fewer;
+                                         unlike CallEnd it does not refresh lastTime and never marks the connection dead *)
 | Tick (now : Z)                      (* one housekeeping round at this clock *)
 | CloseIdle                           (* CloseIdleConnections *)
 | Close.                              (* Transport.Close *)
@@ -302,6 +304,7 @@ Definition step (p : pool) (a : action) : pool :=
   | CallEnd c sh =>
       let p1 := upd_conn c (fun pc => pc_set_last (p_now p) (pc_busy_set (pc_busy pc - 1) pc)) p in
       if sh then upd_conn c pc_kill p1 else p1
+  | StreamEnd c => upd_conn c (fun pc => pc_busy_set (pc_busy pc - 1) pc) p
   | Tick now => tick now p
   | CloseIdle => close_idle p
   | Close => close_transport p
